@@ -229,6 +229,16 @@ def r01b(ctx):
                 reason = f"wrong sign for pairing(s) {bad} (sign must be (-1)^crossings)"
         ctx.check("R01b", fn, ok, f"n={n}: {len(want)} complete pairings, each once, "
                   "sign (-1)^crossings", f"n={n}: {reason}", key=f"pairings n={n}")
+    # the same operator may occur several times in a string (equal objects at different positions):
+    # the bookkeeping must go by position, not by value
+    for labels in (["A", "B", "A", "B"], ["A", "A", "B", "B", "A", "B"]):
+        ops = [Rec("op", pos=k, _eqkey=lab) for k, lab in enumerate(labels)]
+        n = len(labels)
+        got = sorted((tuple(sorted(p)), s) for s, p in _expand(run(ops)))
+        want = sorted((tuple(sorted(p)), (-1) ** _crossings(p)) for p in _pairings(list(range(n))))
+        ctx.check("R01b", fn, got == want, f"repeated operators {labels}: pairings by position",
+                  f"operator string with repeated (equal) operators {labels}: complete pairings are "
+                  f"{[p for p, _ in got][:4]}..., expected every pairing of positions once", key=f"repeated {''.join(labels)}")
     # a vanishing contraction must remove exactly the pairings containing it
     ops = [Rec("op", pos=k) for k in range(4)]
     got = sorted(tuple(sorted(p)) for s, p in _expand(run(ops, frozenset({(0, 2)}))))
@@ -389,6 +399,20 @@ def r01d(ctx):
         cs = conditions(c)
         ctx.check("R01d", c, ("rules is None", False) in cs, "apply reached only when rules given",
                   "rules.apply not dominated by `rules is not None`", key="apply guard")
+    for r in rets:
+        v = U(r.value)
+        kind = None
+        if v == "S.Zero":
+            kind = "zero"
+        elif v == "result" and ("rules is None", True) in conditions(r):
+            kind = "no rules"
+        elif "rules.apply(" in v:
+            kind = "rules applied"
+        elif isinstance(r.value, ast.Call) and call_name(r.value) == "Add" and "wicks(" in v:
+            kind = "sum of recursive results"
+        ctx.check("R01d", r, kind is not None, f"return: {kind}",
+                  f"`return {v}` leaves wicks without passing the block-exclusion rules (only zero, the recursive sum, and the "
+                  "result without rules may bypass rules.apply)", key=f"return {v[:40]}")
     # rules is None -> return result
     for r in rets:
         cs = conditions(r)
